@@ -23,6 +23,10 @@ def cases(draw, tier):
             'add_outputs': draw(st.booleans()), 'given_labels': draw(st.booleans())}
     wmax = {'sub': 7, 'sub_cmp': 6, 'div_mod': 6 if not big else 7, 'sqrt': 12, 'equal': 8, 'plus_one': 8,
             'ite': 1, 'pairwise_xor': 5, 'pairwise_ite': 4}[kind]
+    if form == 'add' and draw(st.integers(0, 2)) == 0:
+        # operands taken from a host circuit do not enlarge the table, so long numbers are affordable there
+        wmax = {'sub': 16, 'sub_cmp': 16, 'div_mod': 10, 'sqrt': 16, 'equal': 16, 'plus_one': 16,
+                'ite': 1, 'pairwise_xor': 12, 'pairwise_ite': 12}[kind]
     case['n'] = draw(st.integers(1, wmax))
     case['m'] = draw(st.integers(1, wmax if kind != 'plus_one' else 10))
     if kind == 'equal':
@@ -34,9 +38,9 @@ def cases(draw, tier):
     if form == 'add':
         case['host'] = draw(arith.hosts(min_inputs=1, max_inputs=6, max_gates=8))
         case['host_route'] = draw(arith.gen.routes(case['host']))
-        case['p1'] = arith.operand_picks(draw, 12, allow_repeat=kind != 'plus_one')
-        case['p2'] = arith.operand_picks(draw, 12, allow_repeat=True)
-        case['p3'] = arith.operand_picks(draw, 12, allow_repeat=True)
+        case['p1'] = arith.operand_picks(draw, 16, allow_repeat=kind != 'plus_one')
+        case['p2'] = arith.operand_picks(draw, 16, allow_repeat=True)
+        case['p3'] = arith.operand_picks(draw, 16, allow_repeat=True)
     return case
 
 
